@@ -23,9 +23,22 @@ structure Setup (α : Type) where
   colCounts : GridPlacement.TrackCounts
   rowCounts : GridPlacement.TrackCounts
 
-/-- the children that generate boxes, as placement inputs -/
+/-- the children that generate boxes and are not absolutely positioned, as inputs of the size estimate -/
 def boxChildren (childStyles : List (GridChildStyle α)) : List GridPlacement.Child :=
-  (childStyles.filter fun cs => !cs.base.isHidden).map fun cs => ⟨cs.gridRow, cs.gridColumn⟩
+  ((childStyles.filter fun cs => !cs.base.isHidden).filter fun cs => cs.base.position != .absolute).map fun cs =>
+    ⟨cs.gridRow, cs.gridColumn⟩
+
+omit [NumCast α] in
+theorem boxChildren_nil : boxChildren ([] : List (GridChildStyle α)) = [] := rfl
+
+omit [NumCast α] in
+theorem boxChildren_cons (a : GridChildStyle α) (as : List (GridChildStyle α)) :
+    boxChildren (a :: as) =
+      if (!a.base.isHidden && a.base.position != .absolute) = true then ⟨a.gridRow, a.gridColumn⟩ :: boxChildren as
+      else boxChildren as := by
+  unfold boxChildren
+  cases h1 : a.base.isHidden <;> cases h2 : (a.base.position != Position.absolute) <;>
+    simp [List.filter_cons, h1, h2]
 
 /-- the in-flow children with their indices -/
 def inFlowChildren (childStyles : List (GridChildStyle α)) : List (Nat × GridPlacement.Child) :=
